@@ -16,7 +16,7 @@ GEOM_KEYS = ("paperw", "paperh", "margl", "margr", "margt", "margb", "headery", 
 PRIMS = ("strat", "n", "h", "nlev", "chg", "schg", "div", "newpage", "pbrow", "pbhdr", "nrow", "hdr",
          "foot", "src", "ptitle", "pfoot", "psrc", "title", "subline",
          "font", "size", "paper", "pghf", "pagefirst", "pagelast", "bodyfirst", "bodylast", "utop", "ubot",
-         "ndata", "gpos", "relwk", "hdrw", "ushape")
+         "ndata", "gpos", "relwk", "hdrw", "ushape", "dup")
 
 PAPERS = {
     "letter": {},
@@ -24,10 +24,12 @@ PAPERS = {
     "a4": {"paper": (8.27, 11.69)},
     "a4land": {"orientation": "landscape", "paper": (11.69, 8.27)},
     "custom": {"paper": (7.3, 9.45), "margin": [0.9, 0.8, 1.1, 0.7, 0.6, 0.55], "col_width": 5.1},
+    # letter paper with margins of its own (same size and orientation as "letter")
+    "letterm": {"margin": [1.0, 1.3, 1.6, 1.1, 1.45, 0.95]},
 }
 PRIM_DEFAULTS = {"font": 1, "size": 9, "paper": "letter", "pghf": 0, "pagefirst": "double", "pagelast": "double",
                  "bodyfirst": "single", "bodylast": "single", "utop": "", "ubot": "",
-                 "ndata": 2, "gpos": "first", "relwk": "equal", "hdrw": False, "ushape": "scalar"}
+                 "ndata": 2, "gpos": "first", "relwk": "equal", "hdrw": False, "ushape": "scalar", "dup": False}
 
 RELW = {"equal": lambda j: 1.0, "asc": lambda j: 1.0 + 0.5 * j, "mixed": lambda j: [0.2, 10.0, 1.3, 2.7, 0.9, 4.4][j % 6],
         "tenths": lambda j: [1.7, 0.3, 2.9, 5.1, 0.7, 3.3][j % 6]}
@@ -46,6 +48,7 @@ def opts_from_cfg(c, over=None):
     o["relwk"] = c.get("relwk", "equal")
     o["hdr_own_widths"] = bool(c.get("hdrw", False))
     o["ushape"] = c.get("ushape", "scalar")
+    o["dup"] = bool(c.get("dup", False))
     o.update(over or {})
     return o
 
@@ -118,6 +121,10 @@ def pb_text(c, v, r):
         div = "second"
     if div == "second" and v == c["nlev"] and i == 2:
         return "-----"
+    if div == "resume" and v == c["nlev"]:
+        return "-----" if i == 2 else "~P%d.%d~" % (v, i - 2 if i >= 3 else 1)
+    if div == "cycle":
+        return "~P%d.%d~" % (v, (i - 1) % 2 + 1)
     if div == "outer" and v < c["nlev"] and i == 2:
         return "-----"
     if div == "first" and v == c["nlev"] and c["nlev"] >= 2 and val_idx(c, v - 1, r) >= 2:
@@ -126,7 +133,8 @@ def pb_text(c, v, r):
 
 
 def sub_text(c, r):
-    return "~S%d~" % sum(1 for j in range(1, r + 1) if c["schg"][j - 1])
+    i = sum(1 for j in range(1, r + 1) if c["schg"][j - 1])
+    return "~S%d~" % ((i - 1) % 2 + 1 if c["div"] == "cycle" else i)
 
 
 def has_pb(c):
@@ -154,6 +162,9 @@ def build(c, o, nrows=None):
     dcols = ["~D%d~" % k for k in range(1, o["ndata"] + 1)]
     gcols = pbcols + subcols
     gpos = o.get("gpos", "first")
+    if gpos == "rev":
+        # the frame stores the group columns in the reverse of the page_by order
+        gcols = list(reversed(gcols))
     if o["order"]:
         cols = o["order"]
     elif gpos == "last":
@@ -175,6 +186,9 @@ def build(c, o, nrows=None):
     removed = set(subcols) | (set(pbcols) if spanning(c) else set())
     kept = [x for x in cols if x not in removed]
     relw_all = o["relw"] or [RELW[o.get("relwk", "equal")](j) for j in range(len(cols))]
+    dup = bool(o.get("dup")) and len(dcols) >= 2 and o["texts"] is None and not o["relw"]
+    if dup:
+        relw_all = [4.0 if x == dcols[1] else 1.0 for x in cols]
     relw_kept = [w for x, w in zip(cols, relw_all) if x not in removed]
     page_kw = dict(nrow=c["nrow"], orientation=o["orientation"], page_title=c["ptitle"],
                    page_footnote=c["pfoot"], page_source=c["psrc"],
@@ -201,6 +215,9 @@ def build(c, o, nrows=None):
             elif k == 0:
                 # heights are those of the implementation's estimator (font 1, 9pt)
                 data[x].append(filler("d%03d" % r, c["h"][r - 1], colw[x], 1, 9))
+            elif k == 1 and dup and n > 1 and c["h"][r % n] <= 3:
+                # the first column's text of the next row (cyclically); this column is four times as wide: one line
+                data[x].append(filler("d%03d" % (r % n + 1), c["h"][r % n], colw[dcols[0]], 1, 9))
             else:
                 t = "v%d.%d" % (r, k)
                 data[x].append(t if _width_in(t, 1, 9) < 0.8 * colw[x] else "")
@@ -224,7 +241,7 @@ def build(c, o, nrows=None):
         body_kw["border_top"] = umatrix(o["utop"])
     if o["ubot"]:
         body_kw["border_bottom"] = umatrix(o["ubot"])
-    if o["relw"] or o.get("relwk", "equal") != "equal":
+    if o["relw"] or o.get("relwk", "equal") != "equal" or dup:
         body_kw["col_rel_width"] = list(relw_all)
     if o["font"] != 1:
         body_kw["text_font"] = o["font"]
